@@ -28,6 +28,7 @@ Viol(e) ==
     [] e.kind = "ordshut" -> OrdShutViolated(e)
     [] e.kind = "output" -> OutputViolated(e)
     [] e.kind = "api" -> ApiViolated(e)
+    [] e.kind = "apiws" -> ApiWsViolated(e)
     [] e.kind = "osstop" -> StopViolated(e)
     [] e.kind = "conc" -> ConcViolated(e)
     [] OTHER -> {}
@@ -38,7 +39,7 @@ Next ==
   /\ LET e == Trace[l]  v == Viol(e) IN
        IF v = {} THEN TRUE
        ELSE PrintT("VIOL ## " \o e.id \o " ## " \o ToString(l) \o " ## " \o ToString(v) \o " ## "
-                   \o ToString([kind |-> e.kind, detail |-> IF e.kind \in {"scale", "update", "scalegate"} THEN ScaleDetail(e) ELSE IF e.kind = "ordshut" THEN OrdShutDetail(e) ELSE IF e.kind = "output" THEN OutputDetail(e) ELSE IF e.kind = "api" THEN ApiDetail(e) ELSE IF e.kind = "osstop" THEN StopDetail(e) ELSE IF e.kind = "conc" THEN ConcDetail(e) ELSE Detail(e)]) \o " ## " \o ToString([rec |-> l]))
+                   \o ToString([kind |-> e.kind, detail |-> IF e.kind \in {"scale", "update", "scalegate"} THEN ScaleDetail(e) ELSE IF e.kind = "ordshut" THEN OrdShutDetail(e) ELSE IF e.kind = "output" THEN OutputDetail(e) ELSE IF e.kind = "api" THEN ApiDetail(e) ELSE IF e.kind = "apiws" THEN ApiWsDetail(e) ELSE IF e.kind = "osstop" THEN StopDetail(e) ELSE IF e.kind = "conc" THEN ConcDetail(e) ELSE Detail(e)]) \o " ## " \o ToString([rec |-> l]))
   /\ l' = l + 1
 Spec == Init /\ [][Next]_vars
 =============================================================================
